@@ -314,9 +314,14 @@ def eval3(cond, leaf_eval):
 class M:
     """composable predicate over expression trees"""
 
-    def __init__(self, fn, desc):
+    def __init__(self, fn, desc, refs=()):
         self.fn = fn
         self.desc = desc
+        self.refs = frozenset(refs)     # bare (local/param/global) names this matcher can only ever match through
+
+    @staticmethod
+    def _refs(o):
+        return getattr(o, "refs", frozenset())
 
     def __call__(self, t):
         try:
@@ -325,10 +330,10 @@ class M:
             return False
 
     def __and__(self, o):
-        return M(lambda t: self(t) and o(t), "(%s and %s)" % (self.desc, o.desc))
+        return M(lambda t: self(t) and o(t), "(%s and %s)" % (self.desc, o.desc), self.refs | M._refs(o))
 
     def __or__(self, o):
-        return M(lambda t: self(t) or o(t), "(%s or %s)" % (self.desc, o.desc))
+        return M(lambda t: self(t) or o(t), "(%s or %s)" % (self.desc, o.desc), self.refs & M._refs(o))
 
     def __invert__(self):
         return M(lambda t: not self(t), "not " + self.desc)
@@ -340,7 +345,7 @@ class M:
 def m_mentions(*names):
     """tree mentions every given decl (qualified member/function/global name, or bare local name)"""
     s = set(names)
-    return M(lambda t: s <= mentions(t), "mentions(%s)" % ",".join(names))
+    return M(lambda t: s <= mentions(t), "mentions(%s)" % ",".join(names), [n for n in names if "::" not in n])
 
 
 def m_mentions_any(*names):
@@ -354,7 +359,7 @@ def m_calls(name):
 
 
 def m_is_ref(name):
-    return M(lambda t: strip(t).get("k") == "ref" and strip(t)["d"] == name, "ref(%s)" % name)
+    return M(lambda t: strip(t).get("k") == "ref" and strip(t)["d"] == name, "ref(%s)" % name, [name] if "::" not in name else [])
 
 
 def m_is_mem(name):
@@ -379,7 +384,7 @@ def m_any():
 def m_cmp(op, lhs, rhs):
     """normalised comparison leaf: op in ('==','<'); lhs/rhs matchers"""
     return M(lambda t: strip(t).get("k") == "bin" and strip(t).get("op") == op and lhs(strip(t)["l"]) and rhs(strip(t)["r"]),
-             "(%s %s %s)" % (lhs.desc, op, rhs.desc))
+             "(%s %s %s)" % (lhs.desc, op, rhs.desc), M._refs(lhs) | M._refs(rhs))
 
 
 def m_key(s):
